@@ -2,7 +2,7 @@
 // external specifications of dependency items.  Nothing in this file is driver code.
 pub mod vf {
 use vstd::prelude::*;
-use vstd::std_specs::iter::*;
+use vstd::std_specs::iter::IteratorSpec;
 use embedded_hal::digital::{OutputPin, ErrorType};
 use embedded_hal::delay::DelayNs;
 use embedded_graphics_core::pixelcolor::{PixelColor, RgbColor, Rgb565, Rgb666};
@@ -29,14 +29,15 @@ pub trait ExSpiErrorType {
     type ExternalTraitSpecificationFor: embedded_hal::spi::ErrorType;
     type Error: embedded_hal::spi::Error;
 }
-/// One `SpiDevice::write` call: the bytes handed to the device and whether it reported success.
-pub struct SpiWrite { pub bytes: Seq<u8>, pub ok: bool }
+/// One `SpiDevice::write` call: the words handed to the device and whether it reported success.
+pub struct SpiWrite<W> { pub bytes: Seq<W>, pub ok: bool }
 #[verifier::external_trait_specification]
 #[verifier::external_trait_extension(SpiDeviceSpec via SpiDeviceSpecImpl)]
 pub trait ExSpiDevice<Word: Copy + 'static>: embedded_hal::spi::ErrorType {
     type ExternalTraitSpecificationFor: embedded_hal::spi::SpiDevice<Word>;
-    spec fn writes(&self) -> Seq<SpiWrite>;
-    fn write(&mut self, buf: &[Word]) -> (r: Result<(), Self::Error>);
+    spec fn writes(&self) -> Seq<SpiWrite<Word>>;
+    fn write(&mut self, buf: &[Word]) -> (r: Result<(), Self::Error>)
+        ensures final(self).writes() == old(self).writes().push(SpiWrite { bytes: buf@, ok: r is Ok });
 }
 /// One `OutputPin` call.
 pub struct PinOp { pub high: bool, pub ok: bool }
@@ -179,7 +180,134 @@ pub assume_specification [i32::rem_euclid] (a: i32, b: i32) -> (r: i32)
 #[verifier::reject_recursive_types(T)]
 pub struct ExOnce<T>(core::iter::Once<T>);
 pub assume_specification<T> [core::iter::once] (v: T) -> (r: core::iter::Once<T>)
-    ensures r.obeys_prophetic_iter_laws(), r.remaining() == seq![v];
+    ensures r.obeys_prophetic_iter_laws(), r.decrease() is Some, r.remaining() == seq![v];
+
+// ------------------------------------------------------------------------- iterators and slices
+#[verifier::external_type_specification]
+#[verifier::external_body]
+#[verifier::reject_recursive_types(T)]
+pub struct ExChunksExactMut<'a, T: 'a>(core::slice::ChunksExactMut<'a, T>);
+
+/// `<[T]>::chunks_exact_mut` (std): chunk i aliases s[i*n .. i*n+n]; what is written through the chunks is what the
+/// slice holds afterwards; the tail beyond the last whole chunk is untouched.  Assumed (std contract); cross-checked
+/// by the bounded Kani transport harnesses.
+pub assume_specification<'a, T> [<[T]>::chunks_exact_mut] (s: &'a mut [T], n: usize) -> (it: core::slice::ChunksExactMut<'a, T>)
+    requires n != 0
+    ensures
+        it.obeys_prophetic_iter_laws(),
+        it.decrease() is Some,
+        it.remaining().len() == old(s)@.len() / (n as nat),
+        forall|i: int| 0 <= i < it.remaining().len() ==> (*#[trigger] it.remaining()[i])@ == old(s)@.subrange(i * n, i * n + n),
+        final(s)@.len() == old(s)@.len(),
+        forall|k: int| 0 <= k < old(s)@.len() ==> #[trigger] final(s)@[k] ==
+            (if k < (old(s)@.len() / (n as nat)) * n { (*final(it.remaining()[k / (n as int)]))@[k % (n as int)] } else { old(s)@[k] }),
+;
+/// R15: `chunk.try_into().unwrap()` for `&mut [T] -> &mut [T; N]`; the precondition is the proof that it cannot panic.
+#[verifier::external_body]
+pub fn slice_as_array_mut<'a, T, const N: usize>(s: &'a mut [T]) -> (r: &'a mut [T; N])
+    requires old(s)@.len() == N
+    ensures (*r)@ == old(s)@, final(s)@ == (*final(r))@
+{ s.try_into().unwrap() }
+/// R16: `core::cmp::min` on u32
+#[verifier::external_body]
+pub fn min_u32(a: u32, b: u32) -> (r: u32) ensures r == (if a <= b { a } else { b }) { core::cmp::min(a, b) }
+
+/// "the value is a finite, lawful stream": what `for all finite sequences` means formally (input assumption)
+pub uninterp spec fn iter_lawful<T: IntoIterator>(t: T) -> bool;
+/// the items the stream yields (prophetic: the items that will be consumed)
+pub uninterp spec fn iter_yields<T: IntoIterator>(t: T) -> Seq<T::Item>;
+/// the stream will be consumed up to its end
+pub uninterp spec fn iter_ends<T: IntoIterator>(t: T) -> bool;
+/// R9: `X.into_iter()` for a value of generic `impl IntoIterator` type (vstd gives the generic call no postcondition).
+#[verifier::external_body]
+pub fn into_iter<T: IntoIterator>(t: T) -> (r: T::IntoIter)
+    requires iter_lawful(t)
+    ensures r.obeys_prophetic_iter_laws(), r.decrease() is Some, r.remaining() == iter_yields(t), r.will_return_none() == iter_ends(t)
+{ t.into_iter() }
+/// A-yields: for a value that already is an iterator, `into_iter` is the identity (core's blanket impl)
+#[verifier::external_body]
+pub broadcast proof fn axiom_iter_is_into_iter<I: Iterator>(i: I)
+    ensures #[trigger] iter_lawful(i) == (i.obeys_prophetic_iter_laws() && i.decrease() is Some), iter_yields(i) == i.remaining(), iter_ends(i) == i.will_return_none()
+{}
+pub proof fn lemma_skip_step<T>(s: Seq<T>, a: int)
+    requires 0 <= a < s.len()
+    ensures s.skip(a).drop_first() == s.skip(a + 1), s.skip(a)[0] == s[a], s.skip(a).len() == s.len() - a
+{
+    assert(s.skip(a).drop_first() =~= s.skip(a + 1));
+}
+
+// ---------------------------------------------------------------------------- SPI byte stream (C06)
+/// all words of the writes from position `from` on, concatenated
+pub open spec fn written<W>(w: Seq<SpiWrite<W>>, from: int) -> Seq<W>
+    decreases w.len()
+{
+    if w.len() <= from || w.len() == 0 { Seq::empty() } else { written(w.drop_last(), from) + w.last().bytes }
+}
+pub open spec fn all_ok<W>(w: Seq<SpiWrite<W>>, from: int) -> bool { forall|i: int| from <= i < w.len() ==> (#[trigger] w[i]).ok }
+pub proof fn lemma_written_push<W>(w: Seq<SpiWrite<W>>, from: int, x: SpiWrite<W>)
+    requires 0 <= from <= w.len()
+    ensures written(w.push(x), from) == written(w, from) + x.bytes
+{
+    assert(w.push(x).drop_last() == w);
+}
+pub proof fn lemma_written_none<W>(w: Seq<SpiWrite<W>>)
+    ensures written(w, w.len() as int) == Seq::<W>::empty()
+{}
+/// `cnt` copies of a pixel
+pub open spec fn rep<W, const N: usize>(pixel: [W; N], cnt: int) -> Seq<W> {
+    Seq::new((cnt * N) as nat, |k: int| pixel@[k % (N as int)])
+}
+pub proof fn lemma_rep_add<W, const N: usize>(pixel: [W; N], a: int, b: int)
+    requires a >= 0, b >= 0, N > 0
+    ensures rep(pixel, a) + rep(pixel, b) == rep(pixel, a + b)
+{
+    assert(a * N + b * N == (a + b) * N) by(nonlinear_arith);
+    assert(a * N >= 0 && b * N >= 0) by(nonlinear_arith) requires a >= 0, b >= 0, N > 0;
+    let l = rep(pixel, a) + rep(pixel, b);
+    let r = rep(pixel, a + b);
+    assert(l.len() == r.len());
+    assert forall|k: int| 0 <= k < l.len() implies l[k] == r[k] by {
+        if k >= a * N {
+            vstd::arithmetic::div_mod::lemma_mod_multiples_vanish(a, k - a * N, N as int);
+            assert((k - a * N) + a * N == k);
+            assert(N as int * a == a * N) by(nonlinear_arith);
+        }
+    }
+    assert(l =~= r);
+}
+/// pixel arrays flattened into the word stream, in order
+pub open spec fn flat<W, const N: usize>(s: Seq<[W; N]>) -> Seq<W> {
+    Seq::new((s.len() * N) as nat, |k: int| s[k / (N as int)]@[k % (N as int)])
+}
+pub proof fn lemma_flat_add<W, const N: usize>(a: Seq<[W; N]>, b: Seq<[W; N]>)
+    requires N > 0
+    ensures flat(a) + flat(b) == flat(a + b)
+{
+    assert(a.len() * N + b.len() * N == (a.len() + b.len()) * N) by(nonlinear_arith);
+    let l = flat(a) + flat(b);
+    let r = flat(a + b);
+    assert(l.len() == r.len());
+    assert forall|k: int| 0 <= k < l.len() implies l[k] == r[k] by {
+        let n = N as int;
+        let al = a.len() as int;
+        if k < al * n {
+            assert(k / n < al) by(nonlinear_arith) requires 0 <= k < al * n, n > 0;
+        } else {
+            let k2 = k - al * n;
+            vstd::arithmetic::div_mod::lemma_mod_multiples_vanish(al, k2, n);
+            assert(k2 + al * n == k);
+            assert(n * al == al * n) by(nonlinear_arith);
+            assert(k / n == al + k2 / n) by {
+                vstd::arithmetic::div_mod::lemma_fundamental_div_mod(k2, n);
+                vstd::arithmetic::div_mod::lemma_fundamental_div_mod(k, n);
+                assert(k == n * (al + k2 / n) + k2 % n) by(nonlinear_arith) requires k == k2 + al * n, k2 == n * (k2 / n) + k2 % n;
+                vstd::arithmetic::div_mod::lemma_fundamental_div_mod_converse(k, n, al + k2 / n, k2 % n);
+            }
+            assert(0 <= k2 / n < b.len()) by(nonlinear_arith) requires 0 <= k2 < b.len() * n, n > 0;
+        }
+    }
+    assert(l =~= r);
+}
 
 // ------------------------------------------------------------------------------ bytes and traces
 /// Big-endian (most significant byte first) rendering of a 16-bit quantity, as MIPI DCS requires.
@@ -276,7 +404,7 @@ pub broadcast proof fn lemma_ctrl_px_pushed<W>(a: Seq<Ev<W>>, b: Seq<Ev<W>>)
     assert(b.len() > 0);
 }
 pub broadcast group group_trace {
-    lemma_ctrl_push, lemma_ctrl_px_pushed,
+    lemma_ctrl_push, lemma_ctrl_px_pushed, axiom_iter_is_into_iter,
 }
 
 // ------------------------------------------------------------------------- orientation geometry
